@@ -27,7 +27,17 @@ import (
 
 // ---- shared BEP 44 helpers --------------------------------------------------------------------------
 
-var c13Values = []string{"5:alpha", "4:beta", "i7e", "l1:a1:be"}
+// values of every bencode kind, and strings whose bytes spell the encoding of another value of the pool
+var c13Values = []string{"5:alpha", "4:beta", "i7e", "l1:a1:be", "3:i7e", "8:l1:a1:be", "d1:ai1ee", "8:d1:ai1ee", "7:5:alpha", "0:"}
+
+// genC13Val draws an index into c13Values: half the time among the first four (so that equal values
+// at one seq stay frequent), else among all.
+func genC13Val(t *rapid.T, label string) int {
+	if rapid.Bool().Draw(t, label+".wide") {
+		return uniformInt(t, len(c13Values), label)
+	}
+	return uniformInt(t, 4, label)
+}
 
 type b44key struct {
 	pub  ed25519.PublicKey
@@ -122,7 +132,7 @@ func genC13(t *rapid.T) C13Sc {
 			op.Delta = rapid.SampledFrom([]int64{-1, 0, 0, 1, 1, 1, 2}).Draw(t, "op.delta")
 			op.CasMode = rapid.SampledFrom([]string{"none", "none", "stored", "other"}).Draw(t, "op.cas")
 			op.CasVal = genC13Seq(t, "op.casval")
-			op.Val = rapid.IntRange(0, len(c13Values)-1).Draw(t, "op.val")
+			op.Val = genC13Val(t, "op.val")
 		} else {
 			op.Kind = "get"
 			op.Via = rapid.SampledFrom([]string{"wire", "wire", "wrapper"}).Draw(t, "op.via")
@@ -406,12 +416,12 @@ func genC13b(t *rapid.T) C13bSc {
 	var sc C13bSc
 	sc.Server = rapid.Bool().Draw(t, "server")
 	if rapid.Bool().Draw(t, "initial") {
-		sc.Initial = &C13Actor{Seq: rapid.Int64Range(0, 3).Draw(t, "init.seq"), Val: rapid.IntRange(0, 3).Draw(t, "init.val")}
+		sc.Initial = &C13Actor{Seq: rapid.Int64Range(0, 3).Draw(t, "init.seq"), Val: genC13Val(t, "init.val")}
 	}
 	n := rapid.IntRange(2, 4).Draw(t, "nactors")
 	wireUsed := false
 	for i := 0; i < n; i++ {
-		a := C13Actor{Seq: rapid.Int64Range(0, 6).Draw(t, "a.seq"), Val: rapid.IntRange(0, 3).Draw(t, "a.val")}
+		a := C13Actor{Seq: rapid.Int64Range(0, 6).Draw(t, "a.seq"), Val: genC13Val(t, "a.val")}
 		via := "wrapper"
 		if sc.Server {
 			via = rapid.SampledFrom([]string{"srvput", "srvput", "wire"}).Draw(t, "a.via")
